@@ -218,11 +218,14 @@ impl UserBoundsTrait<i32> for UserBounds {
     /// );
     /// ```
     fn try_into_range(&self, parts_length: usize) -> Result<Range<usize>> {
-        let parts_length = parts_length as i32;
+        // The number of parts is a byte count in --bytes mode: an input of 2 GiB
+        // does not fit an i32 (indexes do, lengths do not)
+        let parts_length: i64 = parts_length.try_into().unwrap_or(i64::MAX);
 
-        let start: i32 = match self.l {
+        let start: i64 = match self.l {
             Side::Continue => 0,
             Side::Some(v) => {
+                let v = i64::from(v);
                 if v > parts_length || v < -parts_length {
                     bail!("Out of bounds: {}", v);
                 }
@@ -234,9 +237,10 @@ impl UserBoundsTrait<i32> for UserBounds {
             }
         };
 
-        let end: i32 = match self.r {
+        let end: i64 = match self.r {
             Side::Continue => parts_length,
             Side::Some(v) => {
+                let v = i64::from(v);
                 if v > parts_length || v < -parts_length {
                     bail!("Out of bounds: {}", v);
                 }
